@@ -97,4 +97,64 @@ example : (run [.connect 0, .connect 1, .connect 2, .register 0 [.schema], .regi
     .backendEvent 1 .schema, .backendEvent 9 .topology, .register 2 [.status, .schema], .disconnect 0,
     .backendEvent 2 .schema]).delivered = [(0, 1), (2, 2)] := by decide
 
+/-- **hand_over_conserves** — whatever the interleaving of the backend emitting events, the control
+connection's reader handing them over and the event loop taking them, and however small the
+channel: what the loop has handled followed by what waits in the channel is exactly the events read
+so far, in the order the backend emitted them — a full channel delays, it never drops or reorders -/
+theorem hand_over_conserves (cap : Nat) (as : List QAct) :
+    (qrun cap as).handled ++ (qrun cap as).queue = (qrun cap as).emitted.take (qrun cap as).accepted ∧
+    (qrun cap as).accepted ≤ (qrun cap as).emitted.length ∧ (qrun cap as).queue.length ≤ max cap 0 := by
+  unfold qrun
+  suffices h : ∀ s : EvQ, (s.handled ++ s.queue = s.emitted.take s.accepted ∧ s.accepted ≤ s.emitted.length ∧ s.queue.length ≤ s.cap) →
+      ((as.foldl qstep s).handled ++ (as.foldl qstep s).queue = (as.foldl qstep s).emitted.take (as.foldl qstep s).accepted ∧
+       (as.foldl qstep s).accepted ≤ (as.foldl qstep s).emitted.length ∧ (as.foldl qstep s).queue.length ≤ (as.foldl qstep s).cap) by
+    have hc : ∀ (l : List QAct) (s : EvQ), (l.foldl qstep s).cap = s.cap := by
+      intro l
+      induction l with
+      | nil => intro s; rfl
+      | cons a t ih =>
+        intro s
+        rw [List.foldl_cons, ih]
+        cases a <;> simp [qstep] <;> (try split) <;> (try split) <;> rfl
+    have := h { cap := cap } (by simp)
+    simpa [hc] using this
+  induction as with
+  | nil => intro s h; exact h
+  | cons a t ih =>
+    intro s h
+    apply ih
+    obtain ⟨h1, h2, h3⟩ := h
+    cases a with
+    | emit id =>
+      simp only [qstep]
+      refine ⟨?_, by simp; omega, h3⟩
+      rw [List.take_append_of_le_length h2]; exact h1
+    | put =>
+      simp only [qstep]
+      split
+      · exact ⟨h1, h2, h3⟩
+      · rename_i e he
+        split
+        · rename_i hlt
+          have hacc : s.accepted < s.emitted.length := by
+            rcases Nat.lt_or_ge s.accepted s.emitted.length with h | h
+            · exact h
+            · rw [List.getElem?_eq_none h] at he; cases he
+          refine ⟨?_, hacc, by simp; omega⟩
+          have : s.emitted.take (s.accepted + 1) = s.emitted.take s.accepted ++ [e] := by
+            rw [List.take_add_one, he]; rfl
+          simp only [this, ← h1, List.append_assoc]
+        · exact ⟨h1, h2, h3⟩
+    | get =>
+      simp only [qstep]
+      split
+      · exact ⟨h1, h2, h3⟩
+      · rename_i e rest hq
+        refine ⟨?_, h2, ?_⟩
+        · rw [← h1, hq]; simp
+        · rw [hq] at h3; simp at h3 ⊢; omega
+
+/-- non-vacuity: a channel of capacity 1, three events, the loop slow: all three come out, in order -/
+example : (qrun 1 [.emit 1, .emit 2, .emit 3, .put, .put, .put, .get, .put, .get, .put, .get]).handled = [1, 2, 3] := by decide
+
 end CqlVerif.C14
